@@ -249,3 +249,45 @@ func lemma_C05_dec_Delete_any_count(b []byte, k int) {
 	verifAssert(y.ProtocolID == b[0] && y.SPISize == 4 && int(y.NumberOfSPI) == (len(b)-4)/4 && len(y.SPIs) == (len(b)-4)/4, "C05/Delete/any-count/header-and-count-recovered")
 	verifAssert(y.SPIs[k] == uint32(b[4+4*k])<<24|uint32(b[5+4*k])<<16|uint32(b[6+4*k])<<8|uint32(b[7+4*k]), "C05/Delete/any-count/every-spi-recovered")
 }
+
+// value -> wire -> value for ANY number of SPIs: both loops are cut at their invariants,
+// which speak about the same arbitrary index k (C03, unbounded)
+func lemma_C03_Delete_any_count(proto uint8, spis []uint32, k int) {
+	verifAssume(len(spis) >= 1 && len(spis) <= 65535 && 0 <= k && k < len(spis))
+	verifDeleteK, verifDeleteDK, verifDeleteInvOn = k, k, true
+	v := spis[k]
+	x := &Delete{ProtocolID: proto, SPISize: 4, NumberOfSPI: uint16(len(spis)), SPIs: spis}
+	b, err := x.Marshal()
+	verifAssert(err == nil, "C03/Delete/any-count/marshal-ok")
+	y := new(Delete)
+	verifAssert(y.Unmarshal(b) == nil, "C03/Delete/any-count/unmarshal-ok")
+	verifAssert(y.ProtocolID == proto && y.SPISize == 4 && int(y.NumberOfSPI) == len(spis) && len(y.SPIs) == len(spis), "C03/Delete/any-count/header-and-count")
+	verifAssert(y.SPIs[k] == v, "C03/Delete/any-count/every-spi")
+}
+
+// decode -> encode -> decode is stable for ANY number of SPIs (C12, unbounded): whatever
+// Unmarshal accepted with 4-octet SPIs re-encodes to bytes that decode to the same value
+func lemma_C12_Delete_any_count(b []byte, k int) {
+	verifDeleteK, verifDeleteDK, verifDeleteInvOn = k, k, true
+	x := new(Delete)
+	if x.Unmarshal(b) != nil || len(x.SPIs) == 0 {
+		return
+	}
+	verifAssume(0 <= k && k < len(x.SPIs))
+	v := x.SPIs[k]
+	n := len(x.SPIs)
+	b2, err := x.Marshal()
+	if err != nil {
+		return
+	}
+	verifAssert(len(b2) == 4+4*n && b2[1] == 4 && int(b2[2])<<8|int(b2[3]) == n, "C12/Delete/any-count/re-encoding-length-and-header")
+	verifAssert(b2[4+4*k] == byte(v>>24) && b2[5+4*k] == byte(v>>16) && b2[6+4*k] == byte(v>>8) && b2[7+4*k] == byte(v), "C12/Delete/any-count/re-encoding-holds-every-spi")
+	y := new(Delete)
+	verifAssert(y.Unmarshal(b2) == nil, "C12/Delete/any-count/redecode")
+	verifAssert(y.ProtocolID == x.ProtocolID && y.SPISize == x.SPISize && y.NumberOfSPI == x.NumberOfSPI && len(y.SPIs) == n, "C12/Delete/any-count/equal-header")
+	// (y.SPIs[k] == v itself is left to the composition of two discharged facts: the re-encoding holds
+	// the four octets of v at offset 4+4k (above), and lemma_C05_dec_Delete_any_count recovers from ANY such
+	// bytes the big-endian value at that offset; stated directly, the solvers do not finish the
+	// byte-split / recombination of a value that is itself a recombination of four octets of b)
+	verifAssert(len(y.SPIs) > k, "C12/Delete/any-count/every-spi-present")
+}
